@@ -1,5 +1,6 @@
 //! dbh — embedded-database engines. `dbh <engine> --seed N --tier quick|thorough --out FILE`
 
+mod hist_eng;
 mod storage_eng;
 
 use vcore::Args;
@@ -16,14 +17,31 @@ fn drive(e: &dyn vcore::workers::CaseEngine, args: &Args) -> Report {
     }
 }
 
+fn run_engine(engine: &str, args: &Args) -> Report {
+    let args = args.clone();
+    let args = &args;
+    match engine {
+        "c01" => drive(&storage_eng::C01, args),
+        "c04" => drive(&storage_eng::C04, args),
+        "hist_c08" => drive(&hist_eng::Hist { prop: "C08" }, args),
+        "hist_c09" => drive(&hist_eng::Hist { prop: "C09" }, args),
+        "hist_c10" => drive(&hist_eng::Hist { prop: "C10" }, args),
+        "hist_c11" => drive(&hist_eng::Hist { prop: "C11" }, args),
+        "hist_c18" => drive(&hist_eng::Hist { prop: "C18" }, args),
+        "c13" => drive(&hist_eng::C13, args),
+        _ => {
+            eprintln!("unknown engine '{engine}'");
+            std::process::exit(2);
+        }
+    }
+}
+
 fn main() {
     let args = Args::parse(std::env::args().skip(1));
     let engine = args.pos.first().cloned().unwrap_or_default();
     vcore::panicmon::install();
     let out = args.str("out", "");
     let rep: Report = match engine.as_str() {
-        "c01" => drive(&storage_eng::C01, &args),
-        "c04" => drive(&storage_eng::C04, &args),
         "replay" => {
             let path = args.pos.get(1).cloned().unwrap_or_default();
             let text = std::fs::read_to_string(&path).expect("read replay file");
@@ -32,8 +50,19 @@ fn main() {
             vcore::panicmon::set_quiet(false);
             let w = &v["replay"];
             match w["engine"].as_str().unwrap_or("") {
-                "c01" | "c04" => storage_eng::replay(w, &mut rep),
-                e => eprintln!("unknown replay engine {e}"),
+                "c01" | "c04" if w.get("ops").is_some() => storage_eng::replay(w, &mut rep),
+                e => {
+                    // case-addressed witness: re-run that one case in-process
+                    let mut a = vec![e.to_string()];
+                    for k in ["case", "seed"] {
+                        a.push(format!("--{k}"));
+                        a.push(w[k].as_u64().unwrap_or(0).to_string());
+                    }
+                    a.push("--tier".into());
+                    a.push(w["tier"].as_str().unwrap_or("quick").to_string());
+                    let args2 = Args::parse(a.into_iter());
+                    rep = run_engine(e, &args2);
+                }
             }
             for v in &rep.violations {
                 println!("REPLAY-VIOLATION {} :: {}", v.signature, v.detail);
@@ -43,10 +72,7 @@ fn main() {
             }
             rep
         }
-        _ => {
-            eprintln!("unknown engine '{engine}'");
-            std::process::exit(2);
-        }
+        e => run_engine(e, &args),
     };
     if !out.is_empty() {
         rep.write(&out);
